@@ -81,7 +81,8 @@ Create(r) ==
        /\ LET S == Snaps(r) IN
           /\ DOMAIN S = DOMAIN ts \cup {r.new}
           /\ \A u \in DOMAIN ts : S[u] = ts[u]                               \* other tracks untouched
-          /\ SnapOKx(r.in, S[r.new])                                        \* C01
+          /\ SnapOKx(r.in, S[r.new]) = TRUE                                 \* C01 (`= TRUE`: evaluated as a value - TLC would
+                                                                            \* otherwise branch on every disjunction inside)
           /\ ts' = S
        /\ dead' = dead \ {r.new}
        /\ pinfo' = (r.new :> r.pathinfo) @@ pinfo
@@ -93,7 +94,7 @@ Update(r) ==
        /\ LET S == Snaps(r) IN
           /\ DOMAIN S = DOMAIN ts
           /\ \A u \in DOMAIN ts \ {r.t} : S[u] = ts[u]
-          /\ SnapOKx(r.in, S[r.t])
+          /\ SnapOKx(r.in, S[r.t]) = TRUE
           /\ ts' = S
        /\ dead' = dead
        /\ pinfo' = [pinfo EXCEPT ![r.t] = r.pathinfo]
@@ -115,7 +116,7 @@ Set(r) ==
           /\ DOMAIN S = DOMAIN ts
           /\ \A u \in DOMAIN ts \ {r.t} : S[u] = ts[u]                       \* no other track changes
           /\ \A h \in AllFields \ {g} : S[r.t][h] = ts[r.t][h]               \* no other field changes (C06 frame)
-          /\ SetOK(r, ts[r.t][g], S[r.t][g])                                 \* the field reads back as set
+          /\ SetOK(r, ts[r.t][g], S[r.t][g]) = TRUE                          \* the field reads back as set
           /\ ts' = S
        /\ dead' = dead
        /\ pinfo' = IF r.f = "relative_path" THEN [pinfo EXCEPT ![r.t] = r.pathinfo] ELSE pinfo
@@ -136,7 +137,7 @@ Remove(r) ==
 FixpointAfterSetters(r) ==
     /\ r.t \in DOMAIN ts /\ r.t \in vs
     /\ \/ r.out = "throw" /\ r.std /\ Unchanged(r) /\ ts' = ts
-       \/ /\ r.out = "ok" /\ r.s1 = ts[r.t] /\ SnapOKx(r.s1, r.s2)
+       \/ /\ r.out = "ok" /\ r.s1 = ts[r.t] /\ SnapOKx(r.s1, r.s2) = TRUE
           /\ Snaps(r) = [ts EXCEPT ![r.t] = r.s2] /\ ts' = Snaps(r)
     /\ dead' = dead /\ pinfo' = pinfo
 
@@ -187,7 +188,7 @@ TCall ==
                  [] r.op = "remove" -> Remove(r)
                  [] r.op = "fixpoint" -> Fixpoint(r) \/ FixpointAfterSetters(r)
                  [] OTHER -> FALSE
-       /\ ObsOK(r, ts', dead', fam, pinfo')
+       /\ ObsOK(r, ts', dead', fam, pinfo') = TRUE
        /\ vs' = IF Faulted(r) \/ r.out # "ok" THEN vs
                 ELSE CASE r.op = "set" -> vs \cup {r.t}
                        [] r.op \in {"update", "remove", "fixpoint"} -> vs \ {r.t}
@@ -200,7 +201,7 @@ TReopen ==
     /\ LET r == Log[l] IN
        /\ r.e = "reopen" /\ r.out = "ok" /\ r.loaded = r.want
        /\ Unchanged(r)                                                       \* C10
-       /\ ObsOK(r, ts, {}, fam, pinfo)
+       /\ ObsOK(r, ts, {}, fam, pinfo) = TRUE
     /\ ~probing
     /\ l' = l + 1 /\ UNCHANGED <<fam, fb, ts, dead, pinfo, probing, vs>>
 
@@ -210,7 +211,7 @@ TReset ==
        /\ r.e = "reset" /\ r.out = "ok"
        /\ fam' = r.family /\ fb' = (r.schema \in FbSchemas)
        /\ ts' = <<>> /\ dead' = {} /\ pinfo' = <<>> /\ vs' = {}
-       /\ ObsOK(r, <<>>, {}, r.family, <<>>)
+       /\ ObsOK(r, <<>>, {}, r.family, <<>>) = TRUE
     /\ probing' = FALSE
     /\ l' = l + 1
 
